@@ -138,7 +138,7 @@ pub fn hook(s: u32, arg: u64) {
             let mut st = c.st.lock();
             *st.counters.entry(s).or_insert(0) += 1;
         }
-        site::RUN_START | site::RUN_AFTER_RESET | site::RUN_AFTER_SCAN | site::RUN_AFTER_SORT | site::RUN_BEFORE_NOTIFY_READ | site::RUN_AFTER_NOTIFY | site::RUN_END => {
+        site::RUN_START | site::RUN_AFTER_RESET | site::RUN_AFTER_SCAN | site::RUN_AFTER_SORT | site::RUN_BEFORE_NOTIFY_READ | site::RUN_AFTER_NOTIFY | site::RUN_END | site::RUN_JOB_DONE => {
             let seq = c.seq.fetch_add(1, Ordering::SeqCst);
             let mut st = c.st.lock();
             st.log.push(Event { seq, site: s, arg, thread: thread_id() });
@@ -157,7 +157,8 @@ pub fn hook(s: u32, arg: u64) {
                 }
                 st.run_parked = 0;
             }
-            if s == site::RUN_END {
+            // a run counts as ended when the spawned job is done (lock released, late notification made)
+            if s == site::RUN_JOB_DONE {
                 st.runs_ended += 1;
             }
             drop(st);
